@@ -161,6 +161,27 @@ def run(unit, tier="quick", dev=False, only=None):
     return vpv.finish(unit["prop"], tier, obls, **kw)
 
 
+def bounded_standin(unit, scratch, reason, cmd, t0):
+    """The proof is out of reach on this tree (the code left the verifier's subset).  The BOUNDED stand-in — the native differential
+    search of the unit, labelled bounded, never counted as proved — still runs: a concrete failing input on the real code is a
+    violation; no failing input leaves the property undecided (exit 2)."""
+    wit = unit["witness"](scratch) if unit.get("witness") else None
+    if not (wit and wit.get("found")):
+        raise Undecided(reason + ("\n(bounded stand-in found no failing input: " + str(wit.get("note")) + ")" if wit else ""))
+    prop = unit["prop"]
+    o = Obligation(f"{prop}/bounded-differential-search", fn="(public API of the unit)", tool="native differential search", grade="bounded(universe of <= 3 variables)",
+                   backend="native execution of the real crate", where="witness/")
+    o.kind = "bounded"
+    o.status = REFUTED
+    o.detail = "Verus could not take the current code (" + reason[:600] + "); the bounded stand-in found a failing input: " + str(wit.get("input"))
+    o.finding_keys = [f"{prop}/bounded-differential-search"]
+    o.replay = vpv.write_replay(prop, o.finding_keys[0], dict(tool="native differential search (bounded stand-in)", witness=wit, verus_cmd=cmd,
+                                                              why_no_proof=reason[:3000]))
+    return [o], dict(level="other", explanation="PROOF LOST on this tree: " + reason[:400] + " — bounded stand-in (native differential search over <= 3 variables) found a failing input.",
+                     checker_cmd=wit.get("cmd", ""), trusted_base=[], assumptions=["bounded stand-in only; nothing is proved on this run"],
+                     functions=[], wall_s=time.time() - t0, extra=dict(bounded_standin=True))
+
+
 def run_unit(unit, tier="quick", dev=False, only=None):
     """-> (obligations, kwargs for vpv.finish)"""
     t0 = time.time()
@@ -168,7 +189,10 @@ def run_unit(unit, tier="quick", dev=False, only=None):
     scratch = os.path.join(vpv.SCRATCH_ROOT, "vpv.dev-verus" if dev else f"vpv.{os.getpid()}")
     os.makedirs(scratch, exist_ok=True)
     try:
-        path, text, metas, hits = generate(unit, scratch)
+        try:
+            path, text, metas, hits = generate(unit, scratch)
+        except Undecided as e:
+            return bounded_standin(unit, scratch, str(e), "(extraction failed before Verus ran)", t0)
         js, err, wall, cmd = run_verus(path, extra=unit.get("verus_args"))
         havoced = []
         if "error[E0599]" in err or "error[E0425]" in err:
@@ -179,7 +203,8 @@ def run_unit(unit, tier="quick", dev=False, only=None):
                 js, err, wall, cmd = run_verus(path, extra=unit.get("verus_args"))
         if js is None or js["verification-results"].get("encountered-vir-error") or ("error[E" in err) or re.search(r"^error: (?!.*(not satisfied|assertion failed|termination|rlimit|Resource limit))", err, re.M) and not js["times-ms"].get("smt"):
             first = "\n".join(err.splitlines()[:25])
-            raise Undecided("generated file is outside Verus' subset / no longer type-checks (lost anchor or unsupported construct):\n" + first)
+            reason = "generated file is outside Verus' subset / no longer type-checks (lost anchor or unsupported construct):\n" + first
+            return bounded_standin(unit, scratch, reason, cmd, t0)
         ranges = fn_ranges(text)
         impls = impl_of(text)
         def qual(name, line):
